@@ -150,6 +150,7 @@ class Ctx:
         self.cancel = False
         self.factors = []
         self.positive = set()     # atom keys known to be positive (premises): |a| = a
+        self.prefer_sin = set()   # argument keys (canonical rational forms) whose sine is the kept atom
         self.poly_names = {}
 
     def key(self, node):
@@ -431,11 +432,18 @@ class Ctx:
             r0 = self.rat(n.args[0])
             if not r0[0]:
                 return (pconst(1), one) if name == 'cos' else ({}, one)
-        if name == 'sin':
+        flip = argkeys is not None and argkeys in self.prefer_sin
+        if name == 'sin' and not flip:
             # sin(t)^2 -> 1 - cos(t)^2
             ck = fatom('cos')
             if k not in self.rules:
                 self.rules[k] = psub(one, ppow(patom(ck), 2))
+            return (patom(k), one)
+        if name == 'cos' and flip:
+            # for this angle the sine is the kept atom: cos(t)^2 -> 1 - sin(t)^2
+            sk = fatom('sin')
+            if k not in self.rules:
+                self.rules[k] = psub(one, ppow(patom(sk), 2))
             return (patom(k), one)
         return (patom(k), one)
 
